@@ -24,8 +24,8 @@ class C09(Prop):
 
     def plan(self, tier):
         if tier == "quick":
-            return {"units": 4000, "budget_s": 75, "block": 40}
-        return {"units": 150000, "budget_s": 1500, "block": 100}
+            return {"units": 12000, "budget_s": 90, "block": 40}
+        return {"units": 360000, "budget_s": 1500, "block": 100}
 
     def gen(self, rng, idx, tier):
         nodes, servers = gen.node_specs(1, unix=rng.random() < 0.2)
